@@ -365,7 +365,7 @@ theorem mergeF_DS : ∀ (fuel : Nat) (a b : Node), dictShaped a = true → dictS
             Node.flags, maybePromote, CompKind.sameClass, if_true, finishFlags]
           split
           · rw [propagate_DS (ds_mk_comp (replaceSelfFlags_DS hfa hfb) h2 h1)]
-          · rfl
+          · rw [propagate_DS (ds_mk_comp (replaceOtherFlags_DS hfa hfb) h2 h1)]
         refine ⟨_, true, hres, ⟨ds_mk_comp hff h2 h1, ?_, ?_⟩, rfl, rfl, fun _ => ⟨rfl, rfl⟩⟩
         · intro p
           cases p with
